@@ -110,6 +110,42 @@ def obj_to_var(ty, c, flat, m, flag):
 CLS = {"state": State, "povm": Povm, "gate": Gate, "mprocess": MProcess}
 
 
+def layouts(ty, flat, d, m):
+    """the same object values in other memory layouts: Fortran order, transposed view, strided view"""
+    flat = np.asarray(flat, dtype=np.float64)
+    n = d * d
+
+    def mat_variants(a2):
+        big = np.zeros((2 * a2.shape[0], 2 * a2.shape[1])); big[::2, ::2] = a2
+        return [("fortran", np.asfortranarray(a2)), ("transposed-view", np.ascontiguousarray(a2.T).T), ("strided", big[::2, ::2])]
+
+    if ty == "state":
+        big = np.zeros(2 * len(flat)); big[::2] = flat
+        col = np.asfortranarray(np.tile(flat, (3, 1)))      # row 1 of an F-ordered array: strided
+        return [("strided", big[::2]), ("row-of-fortran", col[1])]
+    if ty == "povm":
+        a2 = flat.reshape(m, n)
+        return [(k, [v[i] for i in range(m)]) for k, v in mat_variants(a2)]
+    if ty == "gate":
+        return mat_variants(flat.reshape(n, n))
+    hs = flat.reshape(m, n, n)
+    per = [mat_variants(h) for h in hs]
+    out = [(per[0][j][0], [per[i][j][1] for i in range(m)]) for j in range(3)]
+    a3 = np.asfortranarray(hs)                               # one F-ordered (m, n, n) block, slices along axis 0
+    out.append(("slices-of-fortran-3d", [a3[i] for i in range(m)]))
+    return out
+
+
+def obj_to_var_arrays(ty, c, arrs, flag):
+    f = {"state": S.convert_vec_to_var, "povm": P.convert_vecs_to_var, "gate": G.convert_hs_to_var, "mprocess": M.convert_hss_to_var}[ty]
+    return f(c, arrs, flag)
+
+
+def make_obj_arrays(ty, c, arrs, flag):
+    kw = dict(is_physicality_required=False, on_para_eq_constraint=flag)
+    return CLS[ty](c, arrs, **kw)
+
+
 def var_to_stacked(ty, c, var, flag):
     return CLS[ty].convert_var_to_stacked_vector(c, np.array(var, dtype=np.float64), flag)
 
@@ -281,6 +317,9 @@ def correspondence(ctx):
         add("var->obj", (cfg, var.tolist()), r, ask_v2o(drv, ty, c, var, flag))
         r = attempt(lambda: obj_to_var(ty, c, flat, m, flag))
         add("obj->var", (cfg, flat.tolist()), r, ask_o2v(drv, ty, c, flat, m, flag))
+        for lname, arrs in layouts(ty, flat, d, m):
+            r = attempt(lambda: obj_to_var_arrays(ty, c, arrs, flag))
+            add(f"obj->var/{lname}", (cfg, flat.tolist()), r, ask_o2v(drv, ty, c, flat, m, flag))
         r = attempt(lambda: var_to_stacked(ty, c, var, flag))
         add("var->stacked", (cfg, var.tolist()), r, ask_v2s(drv, ty, c, var, flag))
         r = attempt(lambda: stacked_to_var(ty, c, flat, flag))
@@ -488,6 +527,20 @@ def check_config(ctx, shape, ty, flag, m, salt, exhaustive=True):
             sat = implied_reference(ty, d, m, flat)       # satisfies the built-in constraint
             if not eq(flat_of(ty, var_to_obj(ty, c, obj_to_var(ty, c, sat, m, flag), flag)), sat, 1e-10):
                 ctx.violate(sig + "/obj->var->obj/constrained", f"{shape} m={m}: constrained object not reproduced", rep); return
+        # --- the same object in other memory layouts (Fortran order, transposed / strided views)
+        for lname, arrs in layouts(ty, flat, d, m):
+            r4 = dict(rep, layout=lname)
+            try:
+                va = obj_to_var_arrays(ty, c, arrs, flag)
+                ob = make_obj_arrays(ty, c, arrs, flag)
+                okl = eq(va, v2) and eq(ob.to_var(), v2) and eq(ob.to_stacked_vector(), flat) and \
+                    eq(flat_of(ty, var_to_obj(ty, c, ob.to_var(), flag)), want, 1e-10) and \
+                    eq(stacked_to_var(ty, c, ob.to_stacked_vector(), flag), v2)
+            except Exception as e:  # noqa
+                ctx.violate(sig + f"/layout={lname}/raises", f"{shape} m={m}: {type(e).__name__}: {e}", r4); return
+            if not okl:
+                ctx.violate(sig + f"/obj->var/layout={lname}", f"{shape} m={m}: object -> var (or stacked vector) depends on the memory layout "
+                            f"of the arrays ({lname})", r4); return
         # --- object API: to_var / generate_from_var / to_stacked_vector / stacked conversions
         obj = make_obj(ty, c, flat, m, flag)
         if not eq(obj.to_var(), v2) or not eq(obj.to_stacked_vector(), flat):
